@@ -90,7 +90,8 @@ def run(chk):
         if g.d["mesh"]["user_options"].get("psi_interpolation_method", "spline") != "spline":
             continue
         I = g.d["inputs"]
-        spl = RectBivariateSpline(I["r1d"], I["z1d"], I["psi2d"])
+        from props import c03
+        spl = RectBivariateSpline(I["r1d"], I["z1d"], c03.effective_inputs(g)[0])
         w = 0.0
         for rid, r in g.d["regions"].items():
             pv = r["psi_vals"]
